@@ -195,9 +195,10 @@ fn get_type_layout(module: &Module, ty: TypeId, mode: PackingMode) -> Option<Lay
         TypeLayer::Object(_) => None,
         TypeLayer::Array(ty, Some(count)) => {
             let element = get_type_layout(module, ty, mode)?;
-            let count = u32::try_from(count).unwrap();
+            // An array too large to describe has no known layout
+            let count = u32::try_from(count).ok()?;
             let mut layout = Layout {
-                size: element.size * count,
+                size: element.size.checked_mul(count)?,
                 align: element.align,
                 offsets: Vec::new(),
             };
